@@ -48,6 +48,7 @@ type bindRes struct {
 	Progs  int       `json:"progs"`
 	Soft   int       `json:"soft"`
 	Detail *bindBad  `json:"detail,omitempty"`
+	Sub    []subDG   `json:"sub,omitempty"` // -prefixes: one digest per prefix of the document
 }
 
 var apiCache = map[string]sonic.API{}
@@ -285,6 +286,11 @@ func bindHandle(in []byte) []byte {
 	if err := json.Unmarshal(in, &c); err != nil {
 		return []byte(`{"error":"bad case"}`)
 	}
+	if c["prefixes"] == true {
+		r := bindPrefixes(c)
+		out, _ := json.Marshal(r)
+		return out
+	}
 	res := bindRes{ID: intOf(c["id"])}
 	od := obsBegin()
 	if c["detail"] == true && od.log == nil {
@@ -461,6 +467,8 @@ func bindMain(args []string) int {
 	digests := fs.String("digests", "", "write per-case observation digests to this file")
 	only := fs.String("only", "", "file with case ids (one per line): replay only these, with observation details")
 	detail := fs.String("detail", "", "ndjson output of the per-case details (with -only)")
+	prefixes := fs.Bool("prefixes", false, "C05: decode every prefix of each document under the placement given by VERIF_PLACE; one digest per prefix")
+	stride := fs.Int("stride", 1, "with -prefixes: replay every stride-th case (offset by the seed)")
 	fs.Parse(args)
 	onlyIDs := map[int]bool{}
 	if *only != "" {
@@ -498,8 +506,14 @@ func bindMain(args []string) int {
 				if *only != "" && !onlyIDs[id] {
 					return nil
 				}
+				if *prefixes && (id+int(*seed))%*stride != 0 {
+					return nil
+				}
 				m := tlaval.ToJSON(st).(map[string]interface{})
 				m["id"], m["seed"] = id, *seed
+				if *prefixes {
+					m["prefixes"] = true
+				}
 				if *only != "" {
 					m["detail"] = true
 				}
@@ -527,7 +541,16 @@ func bindMain(args []string) int {
 			S.Programs += r.Progs
 			S.NoStd += r.NoStd
 			S.Soft += r.Soft
-			dgs.add(r.ID, r.DG)
+			if len(r.Sub) > 0 {
+				for _, sd := range r.Sub {
+					dgs.add(r.ID*256+sd.Sub, sd.DG)
+					if sd.Tag != "" {
+						dgs.addTag(r.ID*256+sd.Sub, sd.Tag)
+					}
+				}
+			} else {
+				dgs.add(r.ID, r.DG)
+			}
 			if r.Detail != nil {
 				r.Detail.Sig = fmt.Sprint(r.ID)
 				details = append(details, *r.Detail)
